@@ -59,3 +59,135 @@ Definition code_finish_suite (pipe : list msg) (k : cnt) : list Z :=
 Definition model_finish_suite (pipe : list msg) (k : cnt) : list Z :=
   let '(rest, k1, st) := read_results pipe k false in
   [0; 0; passes k1; failures k1; skips k1; exceptions k1; Z.of_nat (List.length rest); 0; 0; 1].
+
+(* ------------------------------------------------------------------------------------------ *)
+(* byte-string functions: run the translated function on a string, read the result string back *)
+From CgreenVerif Require Import Printf Params Xml RunnerTool Mocks.
+Local Open Scope Z_scope.
+
+Definition zs_of (l : list N) : list Z := map Z.of_N l.
+Definition ns_of (l : list Z) : list N := map Z.to_N l.
+Definition empty_world : world := mkw [] [] [] [].
+(* the argument string as a caller's buffer: object 0 *)
+Definition str_world (s : list Z) : world := mkw [OBytes (s ++ [0])] [] [] [].
+
+(* -1 :: [] for stuck, -2 for no fuel, otherwise 0 :: bytes *)
+Definition string_result (r : cres (val * world)) : list Z :=
+  match r with
+  | Fine (v, w) => match cstring w v with Fine l => 0 :: l | _ => [-3] end
+  | Stuck _ => [-1]
+  | NoFuel => [-2]
+  end.
+
+(* double_all_percent_signs_in(original) *)
+Definition code_double_percent (s : list Z) : list Z :=
+  string_result (run_fun prog_percent (List.length s + 5) "double_all_percent_signs_in" [VPtr 0 0] (str_world s)).
+Definition model_double_percent (s : list Z) : list Z := 0 :: zs_of (Printf.double_percent (ns_of s)).
+
+(* escaped(text) of the xml reporter *)
+Definition code_xml_escaped (s : list Z) : list Z :=
+  string_result (run_fun prog_xmlesc (List.length s + 5) "escaped" [VPtr 0 0] (str_world s)).
+Definition model_xml_escaped (s : list Z) : list Z := 0 :: zs_of (Xml.escape (ns_of s)).
+
+(* create_vector_of_names(parameters): the names, each followed by -7 *)
+Definition names_result (r : cres (val * world)) : list Z :=
+  match r with
+  | Fine (v, w) =>
+      match get_vec w v with
+      | Fine (_, items) =>
+          0 :: flat_map (fun it => match cstring w it with Fine l => l ++ [-7] | _ => [-3] end) items
+      | _ => [-3]
+      end
+  | Stuck _ => [-1]
+  | NoFuel => [-2]
+  end.
+Definition code_names (s : list Z) : list Z :=
+  names_result (run_fun prog_params (2 * List.length s + 10) "create_vector_of_names" [VPtr 0 0] (str_world s)).
+Definition model_names (s : list Z) : list Z :=
+  0 :: flat_map (fun nm => zs_of nm ++ [-7]) (Params.names (ns_of s)).
+
+(* test_matches_pattern(pattern, item) *)
+Definition code_matches (pat ctx name : list Z) : list Z :=
+  match run_fun prog_tool 10 "test_matches_pattern" [VPtr 1 0; VPtr 0 0]
+                (mkw [ORec [("context_name", VLit ctx); ("test_name", VLit name)]; OBytes (pat ++ [0])] [] [] []) with
+  | Fine (VInt b, _) => [0; b]
+  | Fine _ => [-3]
+  | Stuck _ => [-1]
+  | NoFuel => [-2]
+  end.
+Definition model_matches (pat ctx name : list Z) : list Z :=
+  [0; if RunnerTool.item_matches (ns_of pat) (RunnerTool.mkitem (ns_of ctx) (ns_of name)) then 1 else 0].
+
+(* ------------------------------------------------------------------------------------------ *)
+(* the expectation queue: object 0 is the queue (a CgreenVector), object i+1 the i-th expectation
+   of the initial queue *)
+Definition fn_name (f : nat) : list Z := [102; 48 + Z.of_nat f].       (* "f0", "f1", ... *)
+Definition exp_rec (e : mexp) : obj :=
+  ORec [("function", VLit (fn_name (efn e))); ("test_file", VLit []); ("test_line", VInt (Z.of_nat (eline e)));
+        ("time_to_live", VInt (ettl e)); ("constraints", VInt 0);
+        ("number_times_called", VInt (encalled e)); ("times_triggered", VInt (entrig e))].
+Definition mocks_world (unl : Z) (q : list mexp) (succ : list nat) : world :=
+  mkw (OVec (map (fun i => VPtr (S i) 0) (seq 0 (List.length q))) :: map exp_rec q ++ [OVec (map (fun f => VLit (fn_name f)) succ)])
+      [("global_expectation_queue", VPtr 0 0); ("UNLIMITED_TIME_TO_LIVE", VInt unl);
+       ("successfully_mocked_calls", VPtr (S (List.length q)) 0)] [] [].
+
+(* the queue read back: per entry its line (identity), time to live, times triggered *)
+Definition entry_z (w : world) (v : val) : list Z :=
+  match get_field w v "test_line", get_field w v "time_to_live", get_field w v "times_triggered" with
+  | Fine (VInt a), Fine (VInt b), Fine (VInt c) => [a; b; c]
+  | _, _, _ => [-3]
+  end.
+Definition queue_z (w : world) : list Z :=
+  match get_vec w (VPtr 0 0) with
+  | Fine (_, items) => flat_map (entry_z w) items
+  | _ => [-3]
+  end.
+Definition model_queue_z (q : list mexp) : list Z :=
+  flat_map (fun e => [Z.of_nat (eline e); ettl e; entrig e]) q.
+
+Definition run_mocks (unl : Z) (q : list mexp) (f : string) (args : list val) : cres (val * world) :=
+  run_fun prog_mocks (2 * List.length q + 10) f args (mocks_world unl q []).
+Definition val_z (w : world) (v : val) : list Z :=
+  match v with
+  | VInt z => [z]
+  | VPtr _ _ => match get_field w v "test_line" with Fine (VInt a) => [1000 + a] | _ => [-3] end
+  | _ => [-3]
+  end.
+Definition mocks_result (r : cres (val * world)) : list Z :=
+  match r with
+  | Fine (v, w) => 0 :: val_z w v ++ [-7] ++ queue_z w
+  | Stuck _ => [-1]
+  | NoFuel => [-2]
+  end.
+
+(* per function of the queue: translated code against Mocks.v *)
+Definition code_find (unl : Z) (q : list mexp) (f : nat) := mocks_result (run_mocks unl q "find_expectation" [VLit (fn_name f)]).
+Definition model_find (unl : Z) (q : list mexp) (f : nat) : list Z :=
+  0 :: match find_exp q f with Some e => [1000 + Z.of_nat (eline e)] | None => [0] end ++ [-7] ++ model_queue_z q.
+Definition code_remove_first (unl : Z) (q : list mexp) (f : nat) := mocks_result (run_mocks unl q "remove_expectation_for" [VLit (fn_name f)]).
+Definition model_remove_first (unl : Z) (q : list mexp) (f : nat) : list Z := 0 :: [0] ++ [-7] ++ model_queue_z (remove_first q f).
+Definition code_have_always (unl : Z) (q : list mexp) (f : nat) := mocks_result (run_mocks unl q "have_always_expectation_for" [VLit (fn_name f)]).
+Definition model_have_always (unl : Z) (q : list mexp) (f : nat) : list Z :=
+  0 :: [if have_always unl q f then 1 else 0] ++ [-7] ++ model_queue_z q.
+Definition code_have_never (unl : Z) (q : list mexp) (f : nat) := mocks_result (run_mocks unl q "have_never_call_expectation_for" [VLit (fn_name f)]).
+Definition model_have_never (unl : Z) (q : list mexp) (f : nat) : list Z :=
+  0 :: [if have_never unl q f then 1 else 0] ++ [-7] ++ model_queue_z q.
+Definition code_remove_never (unl : Z) (q : list mexp) (f : nat) := mocks_result (run_mocks unl q "remove_never_call_expectation_for" [VLit (fn_name f)]).
+Definition model_remove_never (unl : Z) (q : list mexp) (f : nat) : list Z := 0 :: [0] ++ [-7] ++ model_queue_z (remove_never unl q f).
+(* destroy_expectation_if_time_to_die(the first entry for f), after that entry has been used *)
+Definition code_after_use (unl : Z) (q : list mexp) (f : nat) : list Z :=
+  match run_mocks unl q "find_expectation" [VLit (fn_name f)] with
+  | Fine (VPtr b o, _) => mocks_result (run_mocks unl q "destroy_expectation_if_time_to_die" [VPtr b o])
+  | Fine _ => [0; 0; -7] ++ model_queue_z q
+  | _ => [-1]
+  end.
+Definition model_after_use (unl : Z) (q : list mexp) (f : nat) : list Z :=
+  match find_exp q f with
+  | Some e => 0 :: [0] ++ [-7] ++ model_queue_z (after_use unl q f e)
+  | None => [0; 0; -7] ++ model_queue_z q
+  end.
+Definition code_succ (unl : Z) (succ : list nat) (f : nat) : list Z :=
+  match run_fun prog_mocks (2 * List.length succ + 10) "successfully_mocked_call" [VLit (fn_name f)] (mocks_world unl [] succ) with
+  | Fine (VInt b, _) => [0; b] | Fine _ => [-3] | Stuck _ => [-1] | NoFuel => [-2]
+  end.
+Definition model_succ (unl : Z) (succ : list nat) (f : nat) : list Z := [0; if existsb (Nat.eqb f) succ then 1 else 0].
